@@ -315,18 +315,74 @@ Proof. eexists. split; [reflexivity|]. vm_compute. auto. Qed.
 
 (* ---------- hwloc_get_obj_with_same_locality (normal / memory types) ---------- *)
 
-Theorem same_locality_sound_complete : forall d src ty,
+Theorem same_locality_sound_complete : forall d src ty mt,
   is_normal (o_type src) || is_memory (o_type src) = true -> is_normal ty || is_memory ty = true ->
-  match get_obj_with_same_locality d src ty with
+  match get_obj_with_same_locality d src ty mt 0 with
   | (Some o, e) => e = E_OK /\ In o (level_objs d (get_type_depth d (Z.of_N ty))) /\
-                   opt_bs_eqb (o_cs src) (o_cs o) = true /\ opt_bs_eqb (o_nds src) (o_nds o) = true
+                   opt_bs_eqb (o_cs src) (o_cs o) = true /\ opt_bs_eqb (o_nds src) (o_nds o) = true /\ mt o = true
   | (None, e) => e = E_NOENT /\
                  (get_type_depth d (Z.of_N ty) = HWLOC_TYPE_DEPTH_UNKNOWN \/ get_type_depth d (Z.of_N ty) = HWLOC_TYPE_DEPTH_MULTIPLE \/
                   forall o, In o (level_objs d (get_type_depth d (Z.of_N ty))) ->
-                            opt_bs_eqb (o_cs src) (o_cs o) && opt_bs_eqb (o_nds src) (o_nds o) = false)
+                            opt_bs_eqb (o_cs src) (o_cs o) && opt_bs_eqb (o_nds src) (o_nds o) && mt o = false)
   end.
 Proof. exact same_locality_sound_complete_l. Qed.
 Print Assumptions same_locality_sound_complete.
+
+(* I/O and Misc sources, and flags: for ALL dumps, sources that are neither normal nor memory, ALL
+   types and ALL subtype/name filters [mt] *)
+Theorem same_locality_io : forall d src ty mt,
+  is_normal (o_type src) || is_memory (o_type src) = false ->
+  (forall flags, flags <> 0 -> get_obj_with_same_locality d src ty mt flags = (None, E_INVAL)) /\
+  (is_io (o_type src) = false -> get_obj_with_same_locality d src ty mt 0 = (None, E_INVAL)) /\
+  (is_io (o_type src) = true ->
+   (o_type src =? HWLOC_OBJ_OS_DEVICE) || (o_type src =? HWLOC_OBJ_PCI_DEVICE) = true ->
+   forall pci, climb_osdev d (S (List.length (t_objs d))) src = Some pci ->
+   (ty = HWLOC_OBJ_PCI_DEVICE ->
+      get_obj_with_same_locality d src ty mt 0 =
+      if (o_type pci =? HWLOC_OBJ_PCI_DEVICE) && mt pci then (Some pci, E_OK) else (None, E_NOENT)) /\
+   (ty = HWLOC_OBJ_OS_DEVICE ->
+      match get_obj_with_same_locality d src ty mt 0 with
+      | (Some c, e) => e = E_OK /\ In c (io_children d pci) /\ o_type c = HWLOC_OBJ_OS_DEVICE /\ mt c = true
+      | (None, e) => e = E_NOENT /\ forall c, In c (io_children d pci) -> (o_type c =? HWLOC_OBJ_OS_DEVICE) && mt c = false
+      end)).
+Proof. exact same_locality_io_l. Qed.
+Print Assumptions same_locality_io.
+
+(* Machine 0 { PCI 1 { OSDev 2, OSDev 3 } } *)
+Definition ex_dump_io : dump :=
+  let mk id ty dp par ich := mkDobj id ty dp 0 None par PNull PNull PNull PNull PNull PNull 0 0 0 0 0 0 None [] [] ich []
+                   None None None None 0 0 (-1) (-1) (-1) (-1) (-1) (-1) (-1) in
+  mkDump 0 1 4 [] None None [] []
+         [mkd 0 HWLOC_OBJ_MACHINE 0 0 0 0 1 ; mk 1 HWLOC_OBJ_PCI_DEVICE HWLOC_TYPE_DEPTH_PCI_DEVICE (PId 0) [PId 2; PId 3];
+          mk 2 HWLOC_OBJ_OS_DEVICE HWLOC_TYPE_DEPTH_OS_DEVICE (PId 1) []; mk 3 HWLOC_OBJ_OS_DEVICE HWLOC_TYPE_DEPTH_OS_DEVICE (PId 1) []].
+Example ex_same_locality_io :
+  exists os3, get ex_dump_io 3 = Some os3 /\
+    (let r := get_obj_with_same_locality ex_dump_io os3 HWLOC_OBJ_PCI_DEVICE (fun _ => true) 0 in (option_map o_id (fst r), snd r)) = (Some 1, E_OK) /\
+    (let r := get_obj_with_same_locality ex_dump_io os3 HWLOC_OBJ_OS_DEVICE (fun _ => true) 0 in (option_map o_id (fst r), snd r)) = (Some 2, E_OK) /\
+    (let r := get_obj_with_same_locality ex_dump_io os3 HWLOC_OBJ_OS_DEVICE (fun o => o_id o =? 3) 0 in (option_map o_id (fst r), snd r)) = (Some 3, E_OK) /\
+    (let r := get_obj_with_same_locality ex_dump_io os3 HWLOC_OBJ_OS_DEVICE (fun _ => false) 0 in (option_map o_id (fst r), snd r)) = (None, E_NOENT) /\
+    (let r := get_obj_with_same_locality ex_dump_io os3 HWLOC_OBJ_CORE (fun _ => true) 0 in (option_map o_id (fst r), snd r)) = (None, E_INVAL).
+Proof. eexists. split; [reflexivity|]. vm_compute. auto. Qed.
+
+(* ---------- hwloc_get_type_depth_with_attr ---------- *)
+
+Theorem type_depth_with_attr_first_group_level : forall d ty gd,
+  let r := get_type_depth_with_attr d ty gd in
+  match gd with
+  | None => r = get_type_depth d ty
+  | Some g =>
+      if (ty =? Z.of_N HWLOC_OBJ_GROUP)%Z && (get_type_depth d ty =? HWLOC_TYPE_DEPTH_MULTIPLE)%Z && negb (g =? Z.of_N UINT_MAX)%Z then
+        (r = HWLOC_TYPE_DEPTH_UNKNOWN /\
+         forall l, (l < Z.to_nat (t_depth d))%nat ->
+           match level_first d (Z.of_nat l) with Some o => (o_type o =? HWLOC_OBJ_GROUP) && (o_group_depth o =? g)%Z | None => false end = false) \/
+        (exists l o, r = Z.of_nat l /\ (l < Z.to_nat (t_depth d))%nat /\ level_first d r = Some o /\
+                     o_type o = HWLOC_OBJ_GROUP /\ o_group_depth o = g /\
+                     forall l', (l' < l)%nat ->
+                       match level_first d (Z.of_nat l') with Some o => (o_type o =? HWLOC_OBJ_GROUP) && (o_group_depth o =? g)%Z | None => false end = false)
+      else r = get_type_depth d ty
+  end.
+Proof. exact type_depth_with_attr_l. Qed.
+Print Assumptions type_depth_with_attr_first_group_level.
 
 (* ---------- hwloc_get_type_depth / hwloc_get_depth_type ---------- *)
 
